@@ -422,7 +422,9 @@ func registerIntrinsics(m *Machine) {
 		return m.format(a[0].(Str), a[1].(Slice).V)
 	}
 	I["fmt.Errorf"] = func(m *Machine, fr *frame, a []Value, _ *ssa.CallCommon) Value {
+		m.fmtOpaque++ // error texts are not the subject: symbolic numbers are rendered opaquely (no fork per digit count)
 		s := m.format(a[0].(Str), a[1].(Slice).V)
+		m.fmtOpaque--
 		// wrap %w operand if present
 		var wrapped Value = Iface{}
 		if a[0].(Str).B == nil && strings.Contains(a[0].(Str).S, "%w") {
@@ -782,7 +784,7 @@ func (m *Machine) fmtTyped(v Value, t types.Type, verb byte) Str {
 			}
 			return Str{S: strconv.FormatUint(x.C, 10)}
 		}
-		if verb == 'd' || verb == 'v' {
+		if (verb == 'd' || verb == 'v') && m.fmtOpaque == 0 {
 			if !signed {
 				return m.fmtUintSym(x)
 			}
